@@ -46,6 +46,7 @@ def cheby1_seq(ns, x):
     """
     ns = list(ns)
     cs = 1/jacobi_seq(ns, -.5, -.5, np.ones(1, dtype=x.dtype))
+    cs = cs.reshape((len(ns),) + (1,)*x.ndim)  # one scale per order, along axis 0 whatever x.ndim is
     seq = jacobi_seq(ns, -.5, -.5, x)
     return seq*cs
 
@@ -87,6 +88,7 @@ def cheby1_der_seq(ns, x):
     """
     ns = list(ns)
     cs = 1/jacobi_seq(ns, -.5, -.5, np.ones(1, dtype=x.dtype))
+    cs = cs.reshape((len(ns),) + (1,)*x.ndim)  # one scale per order, along axis 0 whatever x.ndim is
     seq = jacobi_der_seq(ns, -.5, -.5, x)
     return seq*cs
 
@@ -135,7 +137,8 @@ def cheby2_seq(ns, x):
     ns = np.asarray(ns)
     cs = (ns+1)/np.squeeze(jacobi_seq(ns, .5, .5, np.ones(1, dtype=x.dtype)))
     seq = jacobi_seq(ns, .5, .5, x)
-    return seq*cs[:, np.newaxis]
+    # one scale per order, along axis 0 whatever x.ndim is
+    return seq*cs.reshape((len(ns),) + (1,)*x.ndim)
 
 
 def cheby2_der(n, x):
@@ -176,7 +179,8 @@ def cheby2_der_seq(ns, x):
     ns = np.asarray(ns)
     cs = (ns + 1)/np.squeeze(jacobi_seq(ns, .5, .5, np.ones(1, dtype=x.dtype)))
     seq = jacobi_der_seq(ns, .5, .5, x)
-    return seq*cs[:, np.newaxis]
+    # one scale per order, along axis 0 whatever x.ndim is
+    return seq*cs.reshape((len(ns),) + (1,)*x.ndim)
 
 
 def cheby3(n, x):
@@ -216,6 +220,7 @@ def cheby3_seq(ns, x):
     """
     ns = list(ns)
     cs = 1/jacobi_seq(ns, -.5, .5, np.ones(1, dtype=x.dtype))
+    cs = cs.reshape((len(ns),) + (1,)*x.ndim)  # one scale per order, along axis 0 whatever x.ndim is
     seq = jacobi_seq(ns, -.5, .5, x)
     return seq*cs
 
@@ -257,6 +262,7 @@ def cheby3_der_seq(ns, x):
     """
     ns = list(ns)
     cs = 1/jacobi_seq(ns, -.5, .5, np.ones(1, dtype=x.dtype))
+    cs = cs.reshape((len(ns),) + (1,)*x.ndim)  # one scale per order, along axis 0 whatever x.ndim is
     seq = jacobi_der_seq(ns, -.5, .5, x)
     return seq*cs
 
@@ -299,7 +305,8 @@ def cheby4_seq(ns, x):
     ns = np.asarray(ns)
     cs = (2*ns+1)/np.squeeze(jacobi_seq(ns, .5, -.5, np.ones(1, dtype=x.dtype)))
     seq = jacobi_seq(ns, .5, -.5, x)
-    return seq*cs[:, np.newaxis]
+    # one scale per order, along axis 0 whatever x.ndim is
+    return seq*cs.reshape((len(ns),) + (1,)*x.ndim)
 
 
 def cheby4_der(n, x):
@@ -340,4 +347,5 @@ def cheby4_der_seq(ns, x):
     ns = np.asarray(ns)
     cs = (2*ns+1)/np.squeeze(jacobi_seq(ns, .5, -.5, np.ones(1, dtype=x.dtype)))
     seq = jacobi_der_seq(ns, .5, -.5, x)
-    return seq*cs[:, np.newaxis]
+    # one scale per order, along axis 0 whatever x.ndim is
+    return seq*cs.reshape((len(ns),) + (1,)*x.ndim)
